@@ -53,7 +53,7 @@ class Runner:
 
     def drive_args(self, extra):
         a = [self.bin, "--prop", self.pid, "--tier", "1" if self.tier == "thorough" else "0"]
-        kn = [e["id"] for e in self.known() if e["status"] == "known"]
+        kn = [e["id"] for e in self.known() if e["status"] == "known"]   # exclusions are per property: each affected property lists its own entry and witness
         if kn: a += ["--known", ",".join(kn)]
         return a + extra
 
